@@ -173,7 +173,7 @@ def ctx_args(kind, tier):
         return ["400", "2500", "all"] if tier == "quick" else ["1200", "6000", "all"]
     if kind == "path":
         return ["all"]
-    return [str(SEEDS_QUICK), "120"] if tier == "quick" else [str(SEEDS_THOROUGH), "all"]
+    return [str(SEEDS_QUICK), "126"] if tier == "quick" else [str(SEEDS_THOROUGH), "all"]
 
 
 def ctx_signature(kind, grp, rej, progs):
@@ -316,7 +316,7 @@ def ctx_guards(kind, data, tier):
             fams[g["case"]["fam"]][recs[g["first"] - 1]["class"]] += 1
         if n < 200:
             vlib.tool_error("vacuity: fewer than 200 hash seeds per input")
-        if len(fams) != 6:
+        if len(fams) != 7:
             vlib.tool_error("vacuity: seed families missing: %s" % sorted(fams))
         det = {}
         for p in (0.005, 0.0078, 0.016, 0.05):
@@ -418,6 +418,7 @@ def run(ctx):
     vlib.harness("c16", ["record", "universe", count, t_u, i_u])
     recs, inputs, rejects, stats = validate(wd, "universe", t_u, i_u, "universe", ev, verdicts)
     usize = int(vlib.harness("c16", ["size"]).stdout.strip())
+    sizes = json.loads(vlib.harness("c16", ["sizes"]).stdout)
     rejected_inputs = {p["input"] for p in rejects}
     samples = []
     for fam_prefix in ("ok-blob", "rej-blob-lit-fields", "rej-files", "rej-enum-variant-types"):
@@ -503,12 +504,14 @@ def run(ctx):
                 "9 times (6 in one process interleaved with all other inputs, 3 in separate processes with different HOME/LANG/TZ/"
                 "RUST_BACKTRACE/cwd/thread count). distinct_nontrivial = distinct project texts (fnv of all files) whose first run had the "
                 "class its family intends (corpus: distinct main files); hash seeds are sampled by repetition, not enumerated. "
-                "Context universes of SyltDetContext (all index-addressed in TLA+, every recorded context re-derived by TLC): hist = 34 "
-                "library programs x 32 process histories (fresh; P,P,P; W,P; W,W',P; W,P,W',P for 10 warm-up programs W), one process per "
-                "history; long = 6 histories of 400/2500 (thorough 1200/6000) compilations in one thread; path = 64 disk projects "
-                "(rooted and relative imports of one module, sub-folders, exports.sy, 3 error kinds) x 9 spellings of the main file / "
-                "working directories, one process each, errors compared with file names normalised; seed = 864 declarations with a "
-                "member written 2-3 times (quick: 120, stratified), each compiled under 256 (thorough 512) fresh hash keys" % usize,
+                "Context universes of SyltDetContext (all index-addressed in TLA+, every recorded context re-derived by TLC): hist = %d "
+                "library programs x %d process histories (fresh; P,P,P; W,P; W,W',P; W,P,W',P for %d warm-up programs W), one process per "
+                "history; long = %d histories of 400/2500 (thorough 1200/6000) compilations in one thread; path = %d disk projects "
+                "(rooted and relative imports of one module, sub-folders, exports.sy, 3 error kinds) x %d spellings of the main file / "
+                "working directories, one process each, errors compared with file names normalised; seed = %d declarations with a "
+                "member written 2-3 times (quick: 126, stratified), each compiled under %d (thorough %d) fresh hash keys" % (
+                    usize, sizes["progs"], sizes["shapes"], sizes["warm"], sizes["long"], sizes["disk"], sizes["spellings"],
+                    sizes["seed_cases"], SEEDS_QUICK, SEEDS_THOROUGH),
            distinct_nontrivial=len(nontrivial) + len(corpus_nontrivial) + ctx_inputs,
            programs=len(inputs) + len(cinputs) + ctx_inputs,
            context_universes=ctx_meas,
